@@ -9,5 +9,5 @@ CHECK = dict(
                  'everything of ElectrumX and aiorpcX runs real', 'session cost throttling disabled '
                  '(COST_*_LIMIT=0) so that oracle sweeps are not throttled',
                  'mempool comparisons leave out the unspendable script forms (OP_RETURN / OP_FALSE OP_RETURN)'],
-    required_probes=['c11.tx_proofs', 'c11.tsc_proofs', 'c11.header_proofs', 'backup_blocks'],
+    required_probes=['c11.inflight_tx_proofs', 'c11.inflight_header_proofs', 'c11.tx_proofs', 'c11.tsc_proofs', 'c11.header_proofs', 'backup_blocks'],
 )
